@@ -121,9 +121,12 @@ fn parent(sub: &str, inp: &str, outp: &str, jobs: usize, fresh: bool, timeout_ms
     let lines = Arc::new(lines);
     let next = Arc::new(Mutex::new(0usize));
     let results: Arc<Mutex<Vec<Option<String>>>> = Arc::new(Mutex::new(vec![None; n]));
+    // once two dozen scenarios of a run have hung (the run is lost anyway: every hang is outside every property), later scenarios get a shorter
+    // leash, so that a change which makes a decoder loop on a whole family of inputs costs minutes, not an hour of watchdog time
+    let hangs = Arc::new(std::sync::atomic::AtomicUsize::new(0));
     let mut hs = vec![];
     for _ in 0..jobs.max(1) {
-        let (lines, next, results, sub) = (lines.clone(), next.clone(), results.clone(), sub.to_string());
+        let (lines, next, results, sub, hangs) = (lines.clone(), next.clone(), results.clone(), sub.to_string(), hangs.clone());
         hs.push(std::thread::spawn(move || {
             let mut child: Option<Child> = None;
             loop {
@@ -133,7 +136,8 @@ fn parent(sub: &str, inp: &str, outp: &str, jobs: usize, fresh: bool, timeout_ms
                 let c = child.as_mut().unwrap();
                 let line = &lines[i];
                 let wrote = writeln!(c.tx, "{}", line).and_then(|_| c.tx.flush()).is_ok();
-                let got = if wrote { c.rx.recv_timeout(Duration::from_millis(timeout_ms)) } else { Ok(None) };
+                let leash = if timeout_ms <= 10000 && hangs.load(std::sync::atomic::Ordering::Relaxed) >= 24 { timeout_ms.min(2500) } else { timeout_ms };
+                let got = if wrote { c.rx.recv_timeout(Duration::from_millis(leash)) } else { Ok(None) };
                 let scn: Value = serde_json::from_str(line).unwrap_or(json!({}));
                 let mk = |obs: Value| json!({"id": scn.get("id").cloned().unwrap_or(json!(0)), "scn": scn, "obs": obs}).to_string();
                 let res = match got {
@@ -148,6 +152,7 @@ fn parent(sub: &str, inp: &str, outp: &str, jobs: usize, fresh: bool, timeout_ms
                     Err(_) => {
                         let _ = c.proc.kill(); let _ = c.proc.wait();
                         child = None;
+                        hangs.fetch_add(1, std::sync::atomic::Ordering::Relaxed);
                         mk(json!({"kind": "hang", "where": "watchdog"}))
                     }
                 };
